@@ -439,6 +439,11 @@ fn run_ml(b: &Value) -> Result<DObs, String> {
             proof.proofs.pop();
         }
         "extra" => proof.proofs.push(G2Projective::rand(&mut rng).into_affine()),
+        "identity_long" => {
+            use ark_ec::AffineRepr;
+            let n = proof.proofs.len() + 1;
+            proof.proofs = vec![G2Affine::zero(); n];
+        }
         m => return Err(format!("unknown proof mutation {}", m)),
     }
     let _: &Vec<G2Affine> = &proof.proofs;
